@@ -83,7 +83,6 @@ def replace_callables_and_configs_with_symbols(
       all_tags = value.__argument_tags__
       value = state.map_children(value)
       for arg, arg_tags in all_tags.items():
-        tag_expr = [task.import_manager.add(tag) for tag in arg_tags]
         if arg not in value.__arguments__:
           raise ValueError(
               f"Tagged field '{arg}' of {value!r} is not found in its"
@@ -92,10 +91,18 @@ def replace_callables_and_configs_with_symbols(
               " value to the field first or removing field tags from your"
               " config, for example using `fdl.clear_tags`."
           )
-        value.__arguments__[arg] = code_ir.WithTagsCall(
-            tag_symbol_expressions=tag_expr,
-            item_to_tag=value.__arguments__[arg],
-        )
+        # Outside of auto_config, `auto_config.with_tags` returns the plain
+        # value, so tags are expressed as (nested) `MyTag.new(value)` calls.
+        tagged = value.__arguments__[arg]
+        for tag in sorted(arg_tags, key=lambda tag: tag.name, reverse=True):
+          tagged = code_ir.SymbolOrFixtureCall(
+              symbol_expression=code_ir.AttributeExpression(
+                  import_manager_wrapper.add(tag, task.import_manager), "new"
+              ),
+              positional_arg_expressions=[tagged],
+              arg_expressions={},
+          )
+        value.__arguments__[arg] = tagged
       return code_ir.SymbolOrFixtureCall(
           symbol_expression=ir_for_buildable_type,
           positional_arg_expressions=[ir_for_symbol],
